@@ -629,7 +629,49 @@ def check_pred_window(ctx, rule, tag, loc, X3, run, facts, envs, what, cell_kw=N
                     "%s[0, 1+u, c] = X[n - w + c, u]" % what, what + " (exogenous rows)", cell_kw)
 
 
+def check_dirrec_exogenous(ctx, repo, cls):
+    """The dirrec prediction row has no exogenous lags (its buffer has one variable row): exogenous data must therefore be
+    refused at fit -- otherwise the regressors are trained on rows the prediction rows do not match."""
+    tag = "%s[X=given]" % cls.name
+    try:
+        run = Run(repo, cls, True)
+    except AnalysisError as e:
+        ctx.undecided("R2", tag + ":exogenous-refused", str(e), None)
+        return
+    loc = ctx.loc(run.fit_cls.module, run.fit_fn)
+    fits = [c for c in run.fit_calls if c.kind == "fit"]
+    if not run.fit_rets:
+        ctx.ok("R2", tag + ":exogenous-refused", "fit refuses exogenous data on every path", loc)
+        return
+    # fit accepts X: then prediction must use it as well
+    try:
+        rets = run.predict(repo)
+    except AnalysisError:
+        rets = []
+    calls = [c for c in run.pred_calls if c.kind == "predict"] if rets is not None else []
+    refused_at_predict = not rets
+    buf_vars = None
+    for c in calls:
+        a = c.args[0] if c.args else None
+        a = a.base if isinstance(a, Flat) else a
+        if isinstance(a, View) and isinstance(a.base, Buf) and a.base.ndim == 3:
+            buf_vars = a.base.shape[1]
+    if buf_vars is not None and Q(base_facts(True)).eq(buf_vars, NX + 1) is True:
+        ctx.ok("R2", tag + ":exogenous-refused", "exogenous data is accepted and its lags are part of the prediction rows", loc)
+    elif fits and (buf_vars is not None or refused_at_predict):
+        ctx.violation("R2", tag + ":exogenous-refused", "fit accepts exogenous data and trains the per-step regressors on rows with the "
+                      "exogenous lags, but the prediction rows are built %s: the refusal in fit is what keeps training and prediction "
+                      "rows consistent" % ("with %r variable row(s)" % buf_vars if buf_vars is not None else "only after X is refused at predict"),
+                      loc, witness={"X": "one exogenous column", "training_row": "[y lags | X lags | earlier targets]",
+                                    "prediction_row": "[y lags | earlier predictions]"})
+    else:
+        ctx.undecided("R2", tag + ":exogenous-refused", "fit accepts exogenous data; the prediction rows are not interpretable", loc)
+
+
 def rule_reducers(ctx, repo, classes):
+    for cls in classes:
+        if strategy_of(repo, cls) == "dirrec":
+            check_dirrec_exogenous(ctx, repo, cls)
     done = set()
     for cls in classes:
         for mname in ("_predict_last_window", "_transform", "_fit"):
